@@ -177,24 +177,19 @@ Proof.
   destruct (ch c sep && Z.eqb d 0); [inversion H; lia|apply IH in H; lia].
 Qed.
 
-Lemma pic_ood : forall rec expr,
-  (forall t, String.length t < String.length expr -> ok_or_diag (rec t)) ->
-  ok_or_diag (parse_inline_conditional_with rec expr).
+Lemma pic_ood : forall depth rec expr,
+  (depth < max_inline_depth -> forall t, ok_or_diag (rec t)) ->
+  ok_or_diag (parse_inline_conditional_with depth rec expr).
 Proof.
-  intros rec expr Hrec. unfold parse_inline_conditional_with.
+  intros depth rec expr Hrec. unfold parse_inline_conditional_with.
   destruct (negb (str_contains expr "?")); auto with ood.
-  destruct (find_top "?" expr 0 0) as [q|] eqn:Eq; auto with ood.
-  apply find_top_range in Eq.
-  destruct (find_pipe_separator (drop (S q) expr)) as [p|] eqn:Ep; auto with ood.
-  assert (Hrest : String.length (drop (S q) expr) < String.length expr) by (rewrite length_drop; lia).
+  destruct (find_top "?" expr 0 0) as [q|]; auto with ood.
+  destruct (find_pipe_separator (drop (S q) expr)) as [p|]; auto with ood.
+  destruct (max_inline_depth <=? depth) eqn:E; auto with ood.
+  apply Nat.leb_gt in E. specialize (Hrec E).
   apply ood_bind.
-  - destruct (nonempty _); auto with ood. apply Hrec.
-    pose proof (length_strip_le (take p (drop (S q) expr))).
-    pose proof (length_take_le p (drop (S q) expr)). lia.
-  - intros tks _. apply ood_bind; auto with ood.
-    destruct (nonempty _); auto with ood. apply Hrec.
-    pose proof (length_strip_le (drop (S p) (drop (S q) expr))).
-    pose proof (length_drop_le (S p) (drop (S q) expr)). lia.
+  - destruct (nonempty _); auto with ood.
+  - intros tks _. apply ood_bind; auto with ood. destruct (nonempty _); auto with ood.
 Qed.
 
 Lemma length_slice_1_m1_le : forall p, String.length (slice_1_m1 p) <= String.length p.
@@ -213,34 +208,29 @@ Proof.
   - destruct (nonempty p); auto. apply ood_bind; auto with ood.
 Qed.
 
-Lemma pcl_ood : forall fuel rl line,
-  String.length line < fuel -> String.length line < rl -> ok_or_diag (parse_content_line_lim rl fuel line).
+(* the fuel is sufficient: a level deeper than the cap is never entered *)
+Lemma pcl_ood : forall fuel depth line,
+  depth <= max_inline_depth -> S max_inline_depth <= fuel + depth ->
+  ok_or_diag (parse_content_line_d fuel depth line).
 Proof.
-  induction fuel as [|f IH]; intros rl line Hf Hr; [lia|].
-  destruct rl as [|rl']; [lia|]. cbn [parse_content_line_lim].
-  pose proof (length_sic_le _ line (le_n _)) as H1.
-  destruct (strip_inline_comment line) as [line1 cm]. simpl in H1.
-  pose proof (length_parse_tags_le line1) as H2.
-  destruct (parse_tags line1) as [lwt tags]. simpl in H2.
+  induction fuel as [|f IH]; intros depth line Hd Hf; [lia|].
+  cbn [parse_content_line_d].
+  destruct (strip_inline_comment line) as [line1 cm].
+  destruct (parse_tags line1) as [lwt tags].
   pose proof (split_expressions_ood lwt) as Hs.
   destruct (split_expressions_with_depth lwt) as [parts|d|k|] eqn:E; auto with ood.
-  - apply split_expressions_bound in E. rewrite Forall_forall in E.
-    apply content_parts_ood. intros p Hp. apply E in Hp. unfold short in Hp.
-    apply pic_ood. intros t Ht. pose proof (length_slice_1_m1_le p).
-    apply IH; lia.
+  - apply content_parts_ood. intros p _. apply pic_ood. intros Hlt t. apply IH; lia.
   - destruct Hs as [[? ?]|[? ?]]; discriminate.
   - destruct Hs as [[? ?]|[? ?]]; discriminate.
 Qed.
 
 Lemma parse_content_line_ood : forall line, ok_or_diag (parse_content_line line).
-Proof. intros. unfold parse_content_line. apply pcl_ood; lia. Qed.
+Proof. intros. unfold parse_content_line. apply pcl_ood; unfold max_inline_depth; lia. Qed.
 
 Lemma parse_inline_conditional_ood : forall e, ok_or_diag (parse_inline_conditional e).
-Proof. intros. apply pic_ood. intros. apply parse_content_line_ood. Qed.
-
-(* the depth-limited function does run out of stack: one level per nesting of {c ? .. | ..} *)
-Lemma pcl_limit_reached : parse_content_line_lim 2 100 "{a ? {b ? c | d} | e}" = PInternal (IRecursion "parse_content_line").
-Proof. vm_compute. reflexivity. Qed.
+Proof.
+  intros. apply pic_ood. intros _ t. apply pcl_ood; unfold max_inline_depth; lia.
+Qed.
 
 (* ------------------------------------------------------------------------------------------- *)
 (* the other line-level functions                                                               *)
@@ -372,18 +362,36 @@ Definition xs_fuel (xs : extractors) : Prop :=
   (exists ls i, x_loop xs ls i = POutOfFuel) \/
   (exists ls i n, x_join xs ls i n = POutOfFuel).
 
-(* the AttributeError of _validate_single_call: the call oracle says that the body of some parsed
-   argument string is not a Call node *)
-Definition attr_escape (is_call : string -> bool) (k : internal) : Prop :=
-  k = INoneAttr /\ exists a, is_call a = false.
-
-(* value, diagnostic, exactly what an extractor returned, or that AttributeError *)
-Definition safe (xs : extractors) (is_call : string -> bool) {A} (m : pres A) : Prop :=
+(* value, diagnostic, or exactly what an extractor returned *)
+Definition safe (xs : extractors) {A} (m : pres A) : Prop :=
   match m with
   | POk _ | PDiag _ => True
-  | PInternal k => xs_internal xs k \/ attr_escape is_call k
+  | PInternal k => xs_internal xs k
   | POutOfFuel => xs_fuel xs
   end.
+
+(* the tests the main loop makes on lines[i].strip() before it calls an extractor *)
+Definition py_test (s : string) : bool := startswith s "<<py" || startswith s "@py".
+Definition if_test (s : string) : bool := startswith s "<<if " || startswith s "@if ".
+Definition for_test (s : string) : bool := startswith s "<<for " || startswith s "@for ".
+Definition at_line (p : string -> bool) (lines : list string) (i : nat) : Prop :=
+  exists l, nth_error lines i = Some l /\ p (strip l) = true.
+
+(* the extractors return a value or a diagnostic wherever the main loop calls them *)
+Definition call_sites_total (xs : extractors) : Prop :=
+  (forall lines i, at_line py_test lines i -> ok_or_diag (x_python xs lines i)) /\
+  (forall lines i, at_line if_test lines i -> ok_or_diag (x_conditional xs lines i)) /\
+  (forall lines i, at_line for_test lines i -> ok_or_diag (x_loop xs lines i)) /\
+  (forall lines i indent, ok_or_diag (x_join xs lines i indent)).
+
+Lemma add_positional_ok : forall n names i acc,
+  n + i <= List.length names -> exists r, add_positional n names i acc = POk r.
+Proof.
+  induction n as [|n IH]; intros names i acc H; simpl; eauto.
+  destruct (nth_error names i) eqn:E.
+  - apply IH. lia.
+  - apply nth_error_None in E. lia.
+Qed.
 
 Section MainLoop.
 Variable pp : pyparse.
@@ -391,33 +399,39 @@ Variable is_call : string -> bool.
 Variable xs : extractors.
 Hypothesis xs_ok : extractors_ok xs.
 
-Notation safe := (safe xs is_call).
+(* The proofs about the loop are made once, for any notion `Good` of an acceptable outcome that
+   contains values and diagnostics, is closed under bind, and holds of what the extractors return
+   at the loop's call sites.  Two instances below: `safe xs` (any extractors) and `ok_or_diag`
+   (extractors that are total at the call sites). *)
+Variable Good : forall A : Type, pres A -> Prop.
+Hypothesis Good_ood : forall A (m : pres A), ok_or_diag m -> Good A m.
+Hypothesis Good_bind : forall A B (m : pres A) (f : A -> pres B),
+  Good A m -> (forall a, m = POk a -> Good B (f a)) -> Good B (pbind m f).
+Hypothesis Good_py : forall lines i, at_line py_test lines i -> Good _ (x_python xs lines i).
+Hypothesis Good_if : forall lines i, at_line if_test lines i -> Good _ (x_conditional xs lines i).
+Hypothesis Good_for : forall lines i, at_line for_test lines i -> Good _ (x_loop xs lines i).
+Hypothesis Good_join : forall lines i indent, Good _ (x_join xs lines i indent).
 
-Lemma safe_ood : forall A (m : pres A), ok_or_diag m -> safe m.
-Proof. intros A m [[a H]|[d H]]; subst; simpl; auto. Qed.
-
-Lemma safe_bind : forall A B (m : pres A) (f : A -> pres B),
-  safe m -> (forall a, m = POk a -> safe (f a)) -> safe (pbind m f).
-Proof. intros A B [a|d|k|] f Hm Hf; simpl in *; auto. Qed.
-
-(* the iteration is safe and, when it succeeds, moves the index forward *)
+(* the iteration is good and, when it succeeds, moves the index forward *)
 Definition adv (i : nat) (m : pres (pstate * nat)) : Prop :=
-  safe m /\ forall st' i', m = POk (st', i') -> i < i'.
+  Good _ m /\ forall st' i', m = POk (st', i') -> i < i'.
 
 Lemma adv_ok : forall i st i', i < i' -> adv i (POk (st, i')).
-Proof. intros. split; simpl; auto. intros ? ? H0. inversion H0; subst; auto. Qed.
+Proof. intros. split; [apply Good_ood; auto with ood|]. intros ? ? H0. inversion H0; subst; auto. Qed.
 
 Lemma adv_diag : forall i d, adv i (PDiag d).
-Proof. intros. split; simpl; auto. discriminate. Qed.
+Proof. intros. split; [apply Good_ood; auto with ood|]. discriminate. Qed.
 
 Lemma adv_dsyn : forall i s j, adv i (dsyn s j).
 Proof. intros. apply adv_diag. Qed.
 
 Lemma adv_bind : forall A i (m : pres A) f,
-  safe m -> (forall a, m = POk a -> adv i (f a)) -> adv i (pbind m f).
+  Good _ m -> (forall a, m = POk a -> adv i (f a)) -> adv i (pbind m f).
 Proof.
-  intros A i [a|d|k|] f Hm Hf; simpl in *; try (split; simpl; auto; discriminate).
-  apply Hf; auto.
+  intros A i m f Hm Hf. split.
+  - apply Good_bind; auto. intros a E. apply Hf; auto.
+  - intros st' i' E. destruct m as [a|d|k|]; simpl in E; try discriminate.
+    eapply (Hf a eq_refl); eauto.
 Qed.
 
 #[local] Hint Resolve adv_ok adv_diag adv_dsyn : adv.
@@ -427,27 +441,28 @@ Ltac adv_if :=
   | |- adv _ (if ?b then _ else _) => destruct b eqn:?
   end.
 
-Lemma body_step_adv : forall lines i line st cp, adv i (body_step pp xs lines i line st cp).
+Lemma body_step_adv : forall lines i line st cp,
+  nth_error lines i = Some line -> adv i (body_step pp xs lines i line st cp).
 Proof.
-  intros. destruct xs_ok as [Hpy [Hcond Hloop]]. unfold body_step.
+  intros lines i line st cp Hl. destruct xs_ok as [Hpy [Hcond Hloop]]. unfold body_step.
   adv_if; [apply adv_ok; lia|].
-  adv_if.
+  destruct (startswith (strip line) "<<py" || startswith (strip line) "@py") eqn:Epy.
   { apply adv_bind.
-    - destruct (x_python xs lines i) eqn:E; simpl; auto; [left; left|left]; eauto.
+    - apply Good_py. exists line. split; auto.
     - intros [code n] E. apply adv_ok. apply Hpy in E. lia. }
-  adv_if.
+  destruct (startswith (strip line) "<<if " || startswith (strip line) "@if ") eqn:Eif.
   { apply adv_bind.
-    - destruct (x_conditional xs lines i) eqn:E; simpl; auto; [left; right; left|right; left]; eauto.
+    - apply Good_if. exists line. split; auto.
     - intros [t n] E. apply adv_ok. apply Hcond in E. lia. }
-  adv_if.
+  destruct (startswith (strip line) "<<for " || startswith (strip line) "@for ") eqn:Efor.
   { apply adv_bind.
-    - destruct (x_loop xs lines i) eqn:E; simpl; auto; [left; right; right; left|right; right; left]; eauto.
+    - apply Good_for. exists line. split; auto.
     - intros [t n] E. apply adv_ok. apply Hloop in E. lia. }
   adv_if.
-  { apply adv_bind; [apply safe_ood, ood_retag, parse_render_line_ood|].
+  { apply adv_bind; [apply Good_ood, ood_retag, parse_render_line_ood|].
     intros [t|] _; apply adv_ok; lia. }
   adv_if.
-  { apply adv_bind; [apply safe_ood, ood_retag, parse_input_attrs_ood|].
+  { apply adv_bind; [apply Good_ood, ood_retag, parse_input_attrs_ood|].
     intros [t|] _; apply adv_ok; lia. }
   adv_if.
   { destruct (split_ws (strip line)) as [|a [|b [|c [|? ?]]]]; auto with adv; try (apply adv_ok; lia). }
@@ -462,25 +477,24 @@ Proof.
     destruct (extract_multiline_expression lines i code) as [cc n]. simpl in Hc.
     destruct (py_stmt_ok pp cc); auto with adv. apply adv_ok; lia. }
   adv_if.
-  { apply adv_bind; [apply safe_ood, validate_choice_syntax_ood|]. intros _ _.
-    apply adv_bind; [apply safe_ood, ood_retag, parse_choice_line_ood|].
+  { apply adv_bind; [apply Good_ood, validate_choice_syntax_ood|]. intros _ _.
+    apply adv_bind; [apply Good_ood, ood_retag, parse_choice_line_ood|].
     intros [[text target args cond sticky sec tags blk]|] _; auto with adv.
     destruct (String.eqb target "@join").
-    - apply adv_bind.
-      + destruct (x_join xs lines (S i) (indent_of line)) eqn:E; simpl; auto;
-          [left; right; right; right|right; right; right]; eauto.
-      + intros [[bc be] n] _. apply adv_ok; lia.
+    - apply adv_bind; [apply Good_join|].
+      intros [[bc be] n] _. apply adv_ok; lia.
     - apply adv_ok; lia. }
   adv_if.
   { adv_if.
-    - apply adv_bind; [apply safe_ood, ood_retag, parse_content_line_ood|]. intros; apply adv_ok; lia.
-    - apply adv_bind; [apply safe_ood, ood_retag, parse_content_line_ood|]. intros; apply adv_ok; lia. }
+    - apply adv_bind; [apply Good_ood, ood_retag, parse_content_line_ood|]. intros; apply adv_ok; lia.
+    - apply adv_bind; [apply Good_ood, ood_retag, parse_content_line_ood|]. intros; apply adv_ok; lia. }
   apply adv_ok; lia.
 Qed.
 
-Lemma parse_step_adv : forall lines i line st, adv i (parse_step pp xs lines i line st).
+Lemma parse_step_adv : forall lines i line st,
+  nth_error lines i = Some line -> adv i (parse_step pp xs lines i line st).
 Proof.
-  intros. unfold parse_step.
+  intros lines i line st Hl. unfold parse_step.
   match goal with |- adv _ (match ?p with inl _ => _ | inr _ => _ end) =>
     assert (Hp : forall r, p = inr r -> i < snd r); [|destruct p as [st1|r] eqn:Ep] end.
   { intros r. repeat match goal with |- context [if ?b then _ else _] => destruct b end;
@@ -501,24 +515,25 @@ Proof.
   adv_if.
   { destruct (strip_inline_comment _) as [hdr cm]. destruct (extract_passage_params hdr) as [nwp ps].
     destruct (parse_tags nwp) as [name tags].
-    apply adv_bind; [apply safe_ood, validate_passage_name_ood|]. intros _ _.
+    apply adv_bind; [apply Good_ood, validate_passage_name_ood|]. intros _ _.
     apply adv_bind.
-    - destruct (nonempty ps); [apply safe_ood, ood_retag, parse_passage_params_ood|simpl; auto].
+    - destruct (nonempty ps); [apply Good_ood, ood_retag, parse_passage_params_ood|apply Good_ood; auto with ood].
     - intros; apply adv_ok; lia. }
-  destruct (st_current st2); [apply body_step_adv|apply adv_ok; lia].
+  destruct (st_current st2); [apply body_step_adv; auto|apply adv_ok; lia].
 Qed.
 
-Lemma parse_loop_safe : forall fuel lines i st,
-  List.length lines < fuel + i -> safe (parse_loop pp xs fuel lines (List.length lines) i st).
+Lemma parse_loop_good : forall fuel lines i st,
+  List.length lines < fuel + i -> Good _ (parse_loop pp xs fuel lines (List.length lines) i st).
 Proof.
   induction fuel as [|f IH]; intros lines i st Hf.
-  - simpl. destruct (List.length lines <=? i) eqn:E; simpl; auto. apply Nat.leb_gt in E. lia.
-  - cbn [parse_loop]. destruct (List.length lines <=? i) eqn:E; simpl; auto.
+  - simpl. destruct (List.length lines <=? i) eqn:E; [apply Good_ood; auto with ood|].
+    apply Nat.leb_gt in E. lia.
+  - cbn [parse_loop]. destruct (List.length lines <=? i) eqn:E; [apply Good_ood; auto with ood|].
     apply Nat.leb_gt in E.
     destruct (nth_error lines i) as [line|] eqn:En.
     2:{ apply nth_error_None in En. lia. }
-    destruct (parse_step_adv lines i line st) as [Hs Hadv].
-    apply safe_bind; auto.
+    destruct (parse_step_adv lines i line st En) as [Hs Hadv].
+    apply Good_bind; auto.
     intros [st' i'] Hr. apply IH. apply Hadv in Hr. lia.
 Qed.
 
@@ -526,50 +541,14 @@ Qed.
 (* post passes                                                                                  *)
 (* ------------------------------------------------------------------------------------------- *)
 
-Lemma add_positional_ok : forall n names i acc,
-  n + i <= List.length names -> exists r, add_positional n names i acc = POk r.
-Proof.
-  induction n as [|n IH]; intros names i acc H; simpl; eauto.
-  destruct (nth_error names i) eqn:E.
-  - apply IH. lia.
-  - apply nth_error_None in E. lia.
-Qed.
-
-(* every parsed argument string is a call (`tree.body` is an ast.Call) *)
-Definition calls_are_calls : Prop := forall a, is_call a = true.
-
-(* value, diagnostic, or the AttributeError *)
-Definition vres {A} (m : pres A) : Prop :=
-  ok_or_diag m \/ (m = PInternal INoneAttr /\ exists a, is_call a = false).
-
-Lemma vres_ood : forall A (m : pres A), ok_or_diag m -> vres m.
-Proof. intros; left; auto. Qed.
-
-Lemma vres_bind : forall A B (m : pres A) (f : A -> pres B),
-  vres m -> (forall a, m = POk a -> vres (f a)) -> vres (pbind m f).
-Proof.
-  intros A B m f [[[a Ha]|[d Hd]]|[Hm Hx]] Hf; subst; simpl; auto.
-  - left. auto with ood.
-  - right. auto.
-Qed.
-
-Lemma vres_safe : forall A (m : pres A), vres m -> safe m.
-Proof.
-  intros A m [H|[H Hx]]; [apply safe_ood; auto|]. subst. simpl. right. split; auto.
-Qed.
-
-Lemma vres_calls : calls_are_calls -> forall A (m : pres A), vres m -> ok_or_diag m.
-Proof. intros Hc A m [H|[_ [a Ha]]]; auto. rewrite Hc in Ha. discriminate. Qed.
-
-Lemma validate_single_call_vres : forall ps tg a, vres (validate_single_call pp is_call ps tg a).
+Lemma validate_single_call_ood : forall ps tg a, ok_or_diag (validate_single_call pp is_call ps tg a).
 Proof.
   intros ps tg a. unfold validate_single_call.
-  destruct (String.eqb tg "@join"); [apply vres_ood; auto with ood|].
-  destruct (lookup tg ps) as [tp|]; [|apply vres_ood; auto with ood].
-  destruct (params tp) as [|p0 pr] eqn:Eps; [destruct (nonempty a); apply vres_ood; auto with ood|].
-  destruct (py_call_shape pp a) as [[npos kws]|]; [|apply vres_ood; auto with ood].
-  destruct (is_call a) eqn:Ec; [|right; split; eauto].
-  apply vres_ood. simpl negb. cbv iota.
+  destruct (String.eqb tg "@join"); auto with ood.
+  destruct (lookup tg ps) as [tp|]; auto with ood.
+  destruct (params tp) as [|p0 pr] eqn:Eps; [destruct (nonempty a); auto with ood|].
+  destruct (py_call_shape pp a) as [[npos kws]|]; auto with ood.
+  destruct (negb (is_call a)); auto with ood.
   destruct (List.length (p0 :: pr) <? npos) eqn:El; auto with ood.
   destruct (existsb _ kws); auto with ood.
   apply Nat.ltb_ge in El.
@@ -581,10 +560,10 @@ Qed.
 Section Walk.
 Variable ps : list (string * passage).
 
-Lemma check_choices_vres : forall cs, vres (check_choices pp is_call ps cs).
+Lemma check_choices_ood : forall cs, ok_or_diag (check_choices pp is_call ps cs).
 Proof.
-  induction cs as [|c r IH]; simpl; [apply vres_ood; auto with ood|].
-  apply vres_bind; [apply validate_single_call_vres|auto].
+  induction cs as [|c r IH]; simpl; auto with ood.
+  apply ood_bind; [apply validate_single_call_ood|auto].
 Qed.
 
 Definition toks_fix := fix toks (l : list token) : pres unit :=
@@ -596,35 +575,35 @@ Definition toks_fix := fix toks (l : list token) : pres unit :=
 Lemma toks_fix_eq : forall l, toks_fix l = check_tokens pp is_call ps l.
 Proof. induction l as [|x r IH]; simpl; auto. destruct (check_token pp is_call ps x); simpl; auto. Qed.
 
-Lemma check_tokens_vres : forall l,
-  Forall (fun t => vres (check_token pp is_call ps t)) l -> vres (check_tokens pp is_call ps l).
+Lemma check_tokens_ood : forall l,
+  Forall (fun t => ok_or_diag (check_token pp is_call ps t)) l -> ok_or_diag (check_tokens pp is_call ps l).
 Proof.
-  induction 1; simpl; [apply vres_ood; auto with ood|]. apply vres_bind; auto.
+  induction 1; simpl; auto with ood. apply ood_bind; auto.
 Qed.
 
-Lemma check_token_vres : forall t, vres (check_token pp is_call ps t).
+Lemma check_token_ood : forall t, ok_or_diag (check_token pp is_call ps t).
 Proof.
-  induction t using token_ind'; try (simpl; apply vres_ood; auto with ood; fail).
+  induction t using token_ind'; try (simpl; auto with ood; fail).
   - (* TCond *)
-    simpl. induction H as [|[c cont chs] r [Hcont Hchs] Hr IH]; [apply vres_ood; auto with ood|].
-    apply vres_bind; [apply check_choices_vres|]. intros _ _.
-    apply vres_bind; [|intros; apply IH].
-    change (vres (toks_fix cont)). rewrite toks_fix_eq. apply check_tokens_vres. exact Hcont.
+    simpl. induction H as [|[c cont chs] r [Hcont Hchs] Hr IH]; auto with ood.
+    apply ood_bind; [apply check_choices_ood|]. intros _ _.
+    apply ood_bind; [|intros; apply IH].
+    change (ok_or_diag (toks_fix cont)). rewrite toks_fix_eq. apply check_tokens_ood. exact Hcont.
   - (* TLoop *)
-    simpl. apply vres_bind; [apply check_choices_vres|]. intros _ _.
-    change (vres (toks_fix cont)). rewrite toks_fix_eq. apply check_tokens_vres. exact H.
+    simpl. apply ood_bind; [apply check_choices_ood|]. intros _ _.
+    change (ok_or_diag (toks_fix cont)). rewrite toks_fix_eq. apply check_tokens_ood. exact H.
   - (* TJump *)
-    simpl. apply validate_single_call_vres.
+    simpl. apply validate_single_call_ood.
 Qed.
 
-Lemma check_tokens_vres' : forall l, vres (check_tokens pp is_call ps l).
-Proof. intros. apply check_tokens_vres. apply Forall_forall. intros. apply check_token_vres. Qed.
+Lemma check_tokens_ood' : forall l, ok_or_diag (check_tokens pp is_call ps l).
+Proof. intros. apply check_tokens_ood. apply Forall_forall. intros. apply check_token_ood. Qed.
 
-Lemma validate_passages_vres : forall todo, vres (validate_passages pp is_call ps todo).
+Lemma validate_passages_ood : forall todo, ok_or_diag (validate_passages pp is_call ps todo).
 Proof.
-  induction todo as [|[k p] r IH]; simpl; [apply vres_ood; auto with ood|].
-  apply vres_bind; [apply check_choices_vres|]. intros _ _.
-  apply vres_bind; [apply check_tokens_vres'|auto].
+  induction todo as [|[k p] r IH]; simpl; auto with ood.
+  apply ood_bind; [apply check_choices_ood|]. intros _ _.
+  apply ood_bind; [apply check_tokens_ood'|auto].
 Qed.
 End Walk.
 
@@ -634,39 +613,58 @@ Proof. intros. unfold check_duplicate_passages. destruct (existsb _ _); auto wit
 Lemma determine_initial_ood : forall ps es, ok_or_diag (determine_initial_passage ps es).
 Proof. intros. unfold determine_initial_passage. repeat ood_step; auto with ood. Qed.
 
-(* parse: value, diagnostic, what an extractor itself returned, or the AttributeError *)
-Lemma parse_safe : forall lines, safe (parse pp is_call xs lines).
+Lemma parse_good : forall lines, Good _ (parse pp is_call xs lines).
 Proof.
   intros lines. unfold parse.
-  apply safe_bind; [apply parse_loop_safe; lia|]. intros st _.
-  apply safe_bind; [apply safe_ood, check_duplicate_ood|]. intros _ _.
-  apply safe_bind; [apply vres_safe, validate_passages_vres|]. intros _ _.
-  apply safe_bind; [apply safe_ood, determine_initial_ood|]. intros; simpl; auto.
-Qed.
-
-Lemma parse_safe_calls : calls_are_calls -> forall lines,
-  match parse pp is_call xs lines with
-  | POk _ | PDiag _ => True
-  | PInternal k => xs_internal xs k
-  | POutOfFuel => xs_fuel xs
-  end.
-Proof.
-  intros Hc lines. pose proof (parse_safe lines) as H.
-  destruct (parse pp is_call xs lines); simpl in *; auto.
-  destruct H as [H|[_ [a Ha]]]; auto. rewrite Hc in Ha. discriminate.
-Qed.
-
-Lemma parse_fuel : forall lines, parse pp is_call xs lines = POutOfFuel -> xs_fuel xs.
-Proof. intros lines H. pose proof (parse_safe lines) as S. rewrite H in S. exact S. Qed.
-
-Lemma parse_loop_fuel : forall lines,
-  parse_loop pp xs (S (List.length lines)) lines (List.length lines) 0 init_state = POutOfFuel -> xs_fuel xs.
-Proof.
-  intros lines H. pose proof (parse_loop_safe (S (List.length lines)) lines 0 init_state ltac:(lia)) as S.
-  rewrite H in S. exact S.
+  apply Good_bind; [apply parse_loop_good; lia|]. intros st _.
+  apply Good_bind; [apply Good_ood, check_duplicate_ood|]. intros _ _.
+  apply Good_bind; [apply Good_ood, validate_passages_ood|]. intros _ _.
+  apply Good_bind; [apply Good_ood, determine_initial_ood|]. intros; apply Good_ood; auto with ood.
 Qed.
 
 End MainLoop.
+
+(* ---- instance 1: arbitrary extractors ---- *)
+
+Lemma safe_ood : forall xs A (m : pres A), ok_or_diag m -> safe xs m.
+Proof. intros xs A m [[a H]|[d H]]; subst; simpl; auto. Qed.
+
+Lemma safe_bind : forall xs A B (m : pres A) (f : A -> pres B),
+  safe xs m -> (forall a, m = POk a -> safe xs (f a)) -> safe xs (pbind m f).
+Proof. intros xs A B [a|d|k|] f Hm Hf; simpl in *; auto. Qed.
+
+Lemma parse_safe : forall pp is_call xs, extractors_ok xs -> forall lines, safe xs (parse pp is_call xs lines).
+Proof.
+  intros pp is_call xs Hx. apply (parse_good pp is_call xs Hx (fun A => @safe xs A)).
+  - intros; apply safe_ood; auto.
+  - intros; apply safe_bind; auto.
+  - intros lines i _. destruct (x_python xs lines i) eqn:E; simpl; auto; [left|left]; eauto.
+  - intros lines i _. destruct (x_conditional xs lines i) eqn:E; simpl; auto; [right; left|right; left]; eauto.
+  - intros lines i _. destruct (x_loop xs lines i) eqn:E; simpl; auto; [right; right; left|right; right; left]; eauto.
+  - intros lines i n. destruct (x_join xs lines i n) eqn:E; simpl; auto; [right; right; right|right; right; right]; eauto.
+Qed.
+
+Lemma parse_loop_safe : forall pp xs, extractors_ok xs -> forall lines,
+  safe xs (parse_loop pp xs (S (List.length lines)) lines (List.length lines) 0 init_state).
+Proof.
+  intros pp xs Hx lines. apply (parse_loop_good pp xs Hx (fun A => @safe xs A)); try lia.
+  - intros; apply safe_ood; auto.
+  - intros; apply safe_bind; auto.
+  - intros ls i _. destruct (x_python xs ls i) eqn:E; simpl; auto; [left|left]; eauto.
+  - intros ls i _. destruct (x_conditional xs ls i) eqn:E; simpl; auto; [right; left|right; left]; eauto.
+  - intros ls i _. destruct (x_loop xs ls i) eqn:E; simpl; auto; [right; right; left|right; right; left]; eauto.
+  - intros ls i n. destruct (x_join xs ls i n) eqn:E; simpl; auto; [right; right; right|right; right; right]; eauto.
+Qed.
+
+(* ---- instance 2: extractors that are total where the loop calls them ---- *)
+
+Lemma parse_total_sites : forall pp is_call xs,
+  extractors_ok xs -> call_sites_total xs -> forall lines, ok_or_diag (parse pp is_call xs lines).
+Proof.
+  intros pp is_call xs Hx [H1 [H2 [H3 H4]]].
+  apply (parse_good pp is_call xs Hx (fun A => @ok_or_diag A)); auto.
+  intros; apply ood_bind; auto.
+Qed.
 
 (* ------------------------------------------------------------------------------------------- *)
 (* C12, structural half: what holds of every story that parse returns                           *)
@@ -1010,31 +1008,37 @@ Lemma parse_never_out_of_fuel_lemma : forall pp xs lines,
   extractors_ok xs ->
   parse_loop pp xs (S (List.length lines)) lines (List.length lines) 0 init_state = POutOfFuel ->
   xs_fuel xs.
-Proof. intros pp xs lines Hx. exact (parse_loop_fuel pp (fun _ => true) xs Hx lines). Qed.
+Proof.
+  intros pp xs lines Hx H. pose proof (parse_loop_safe pp xs Hx lines) as S. rewrite H in S. exact S.
+Qed.
 
 Lemma parse_whole_never_out_of_fuel_lemma : forall pp is_call xs lines,
   extractors_ok xs -> parse pp is_call xs lines = POutOfFuel -> xs_fuel xs.
-Proof. intros pp is_call xs lines Hx. exact (parse_fuel pp is_call xs Hx lines). Qed.
+Proof.
+  intros pp is_call xs lines Hx H. pose proof (parse_safe pp is_call xs Hx lines) as S. rewrite H in S. exact S.
+Qed.
 
 Lemma parse_total_partial_lemma : forall pp is_call xs,
-  extractors_ok xs -> (forall a, is_call a = true) ->
+  extractors_ok xs ->
   forall lines,
     match parse pp is_call xs lines with
     | POk _ | PDiag _ => True
     | PInternal k => xs_internal xs k
     | POutOfFuel => xs_fuel xs
     end.
-Proof. intros pp is_call xs Hx Hc lines. exact (parse_safe_calls pp is_call xs Hx Hc lines). Qed.
-
-Lemma parse_total_general_lemma : forall pp is_call xs,
-  extractors_ok xs ->
-  forall lines,
-    match parse pp is_call xs lines with
-    | POk _ | PDiag _ => True
-    | PInternal k => xs_internal xs k \/ (k = INoneAttr /\ exists a, is_call a = false)
-    | POutOfFuel => xs_fuel xs
-    end.
 Proof. intros pp is_call xs Hx lines. exact (parse_safe pp is_call xs Hx lines). Qed.
+
+(* the cap of the inline-conditional nesting: 50 levels are accepted, the 51st is a diagnostic *)
+Fixpoint nested_conditional (n : nat) : string :=
+  match n with
+  | 0 => "b"
+  | S k => "{a ? " ++ nested_conditional k ++ " | c}"
+  end.
+
+Lemma inline_depth_cap_lemma :
+  is_ok (parse_content_line (nested_conditional 50)) = true /\
+  parse_content_line (nested_conditional 51) = PDiag (DSyntax "content:nesting-depth" 0).
+Proof. vm_compute. split; reflexivity. Qed.
 
 (* ------------------------------------------------------------------------------------------- *)
 (* witnesses used by Props/C11.v                                                                *)
@@ -1052,4 +1056,3 @@ Definition sample_oracle : pyparse :=
 Definition sample_lines : list string :=
   ["import random"; "@start Hall"; ":: Start"; "Hello {name} // greeting"; "~ x = 1";
    "+ [Go {x ? now | later}] -> Hall(1) ^tag"; ":: Hall(n)"; "@render card(n)"; "-> Start"].
-
